@@ -270,3 +270,64 @@ impl StateKind {
             r is Err ==> final(self).log() == old(self).log(),
     { unimplemented!() }
 }
+
+// --- users: construction and lookup are other subsystems ---
+impl User {
+    #[verifier::external_body]
+    pub fn new(id: u32, username: &Name, password: &Name, status: UserStatus, permissions: Option<Permissions>) -> (r: User)
+        ensures r.id == id && r.username == *username,
+    { unimplemented!() }
+}
+impl System {
+    // System::get_user / try_get_user (systems/users.rs): numeric identifiers are looked up by key, names by a scan over the
+    // usernames. Stub: the lookup is unit catalogue's matter; assumed to return an entry of the map (by key when numeric).
+    #[verifier::external_body]
+    pub fn get_user(&self, user_id: &Identifier) -> (r: Result<&User, IggyError>)
+        ensures
+            r matches Ok(u) ==> exists|k: u32| #[trigger] self.users@.contains_key(k) && self.users@[k] == *u
+                && (user_id.kind == IdKind::Numeric ==> user_id.length == 4 && k == user_id.num()),
+            (user_id.kind == IdKind::Numeric && user_id.length == 4 && self.users@.contains_key(user_id.num())) ==> r is Ok,
+    { unimplemented!() }
+}
+// R8 schema for `m.iter().any(|(k, v)| P)` (documented std semantics)
+#[verifier::external_body]
+pub fn std_iter_any<K, V>(m: &HashMap<K, V>, Ghost(f): Ghost<spec_fn((K, V)) -> bool>) -> (r: bool)
+    ensures r == exists|k: K| #[trigger] m@.contains_key(k) && f((k, m@[k])),
+{ unimplemented!() }
+// R8 schema for `m.keys().max()` (documented std semantics): None iff the map is empty, else a largest key
+impl<V> HashMap<u32, V> {
+    #[verifier::external_body]
+    pub fn keys_max(&self) -> (r: Option<&u32>)
+        ensures match r { Some(m) => is_max_of(self@.dom(), *m), None => self@.dom() =~= Set::<u32>::empty() },
+    { unimplemented!() }
+}
+
+// --- transport side of a handler: response mapping and the socket are not part of the catalogue ---
+#[verifier::external_body]
+pub struct ResponseBytes { x: u8 }
+pub mod mapper {
+    use super::*;
+    #[verifier::external_body]
+    pub fn map_stream(stream: &Stream) -> (r: ResponseBytes) { unimplemented!() }
+    #[verifier::external_body]
+    pub fn map_topic(topic: &Topic) -> (r: ResponseBytes) { unimplemented!() }
+    #[verifier::external_body]
+    pub fn map_consumer_group(consumer_group: &ConsumerGroup) -> (r: ResponseBytes) { unimplemented!() }
+    #[verifier::external_body]
+    pub fn map_user(user: &User) -> (r: ResponseBytes) { unimplemented!() }
+}
+pub mod crypto {
+    use super::*;
+    #[verifier::external_body]
+    pub fn hash_password(password: &Name) -> (r: Name) { unimplemented!() }
+}
+#[verifier::external_body]
+pub struct SenderKind { x: u8 }
+impl SenderKind {
+    #[verifier::external_body]
+    pub fn send_ok_response(&mut self, payload: &ResponseBytes) -> (r: Result<(), IggyError>) { unimplemented!() }
+}
+// the entry appended by the last successful `apply`
+pub open spec fn journalled_one(old_log: Seq<EntryCommand>, new_log: Seq<EntryCommand>) -> bool {
+    new_log.len() == old_log.len() + 1 && new_log.drop_last() =~= old_log
+}
